@@ -490,7 +490,8 @@ impl Number {
             // Due to f64 limitations, this part differs a bit from the spec,
             // but has the same effect. It manipulates the string constructed
             // by `format`: digits with an optional dot between two of them.
-            suffix = format!("{this_num:.100}");
+            // A double has at most 1074 fraction digits: this is its exact decimal expansion.
+            suffix = format!("{this_num:.1074}");
 
             // a: getting an exponent
             exponent = Self::flt_str_to_exp(&suffix);
